@@ -215,7 +215,8 @@ fn sweep<D: Distance<P, f64>>(dist: D, c: &Case) -> Value {
         }
     };
     let mut ev = json!({"run": c.run, "ev": "Sweep", "src": c.src, "metric": c.metric.name(),
-        "p": c.metric.p(), "backend": c.backend, "u": c.u, "n": n});
+        "p": c.metric.p(), "backend": c.backend, "u": c.u, "n": n,
+        "ident": c.data.iter().all(|x| *x == c.data[0])});
     if lat {
         ev["D"] = json!(c.data.iter().map(|x| to_i(x, c.u)).collect::<Vec<_>>());
         ev["q"] = json!(to_i(c.q, c.u));
@@ -305,11 +306,9 @@ const BACKENDS: [&str; 2] = ["linear", "cover"];
 // canonical order and two rotations, for 13 queries, 4 metrics, both structures, every
 // k in 0..n+1 and every radius at / between / below / above the occurring distances.
 // ------------------------------------------------------------------------------------------
-fn gen_lattice(inp: &str, prefix: &str, shards: usize) {
+fn gen_lattice(inp: &str, outp: &str) {
     let inputs = read_ndjson(inp);
-    let mut outs: Vec<Out> = (0..shards)
-        .map(|i| Out::create(&format!("{}-{}.ndjson", prefix, i)))
-        .collect();
+    let mut out = Out::create(outp);
     // queries in half units: the 9 lattice points and 4 off-lattice ones
     let mut queries: Vec<Vec<i64>> = Vec::new();
     for y in 0..3 {
@@ -320,12 +319,16 @@ fn gen_lattice(inp: &str, prefix: &str, shards: usize) {
     queries.extend(vec![vec![1, 1], vec![3, 1], vec![2, 1], vec![5, 3]]);
     let mut run = 0i64;
     let mut total = 0usize;
-    for (li, line) in inputs.iter().enumerate() {
+    for line in inputs.iter() {
         let cells: Vec<i64> = line["cells"].as_array().unwrap().iter().map(|c| c.as_i64().unwrap()).collect();
         let n = cells.len();
         let base: Vec<Vec<i64>> = cells.iter().map(|c| vec![2 * (c % 3), 2 * (c / 3)]).collect();
         let mut orders: Vec<Vec<Vec<i64>>> = vec![base.clone()];
+        // six-point multisets (3003 of them) are run in their canonical order only
         for rot in [1usize, (n + 1) / 2] {
+            if n >= 6 {
+                break;
+            }
             let mut o = base.clone();
             o.rotate_left(rot % n);
             if !orders.contains(&o) {
@@ -343,17 +346,15 @@ fn gen_lattice(inp: &str, prefix: &str, shards: usize) {
                         run += 1;
                         let c = Case { run, src: "lat", metric: m, backend: b, u: 2, data: &data, q: &q, ks: &ks, rs: &rs };
                         let ev = with_metric!(m, d, sweep(d, &c));
-                        outs[li % shards].emit(ev);
+                        out.emit(ev);
                         total += 1;
                     }
                 }
             }
         }
     }
-    for o in outs {
-        o.finish();
-    }
-    println!("{} sweep events from {} multisets in {} shards", total, inputs.len(), shards);
+    out.finish();
+    println!("{} sweep events from {} multisets", total, inputs.len());
 }
 
 // ------------------------------------------------------------------------------------------
@@ -692,7 +693,7 @@ fn est_event<D: Distance<P, f64>>(dist: D, c: &EstCase) -> Value {
     let yv: Vec<f64> = c.y.to_vec();
     let mut ev = json!({"run": c.run, "ev": "KnnPredict", "kind": c.kind, "metric": c.metric.name(), "p": c.metric.p(),
         "backend": c.backend, "weight": c.weight, "k": c.k, "n": c.x.len(),
-        "u": 2,
+        "u": 2, "ident": c.x.iter().all(|r| *r == c.x[0]),
         "X": c.x.iter().map(|r| to_i(r, 2)).collect::<Vec<_>>(), "y": to_i(c.y, 1)});
     let mut preds: Vec<Value> = Vec::new();
     let q10 = Q::new(10);
@@ -760,8 +761,11 @@ fn gen_est(outp: &str) {
         // training set: n <= 12 rows on a small lattice (ties, duplicates); g = 0, 1 are the
         // boundary sets named by the statement (single row; all rows identical)
         let n = match g { 0 => 1, 1 => 3, _ => rng.gen_range(2..=12usize) };
-        let dims = rng.gen_range(1..=3usize);
-        let v = rng.gen_range(1..=3i64);
+        // even groups are small enough (<= 2 dimensions, coordinates 0..2) for the exact
+        // rational weights of the specification under distance weighting
+        let small = g % 2 == 0;
+        let dims = if small { rng.gen_range(1..=2usize) } else { rng.gen_range(1..=3usize) };
+        let v = if small { rng.gen_range(1..=2i64) } else { rng.gen_range(1..=3i64) };
         let x: Vec<P> = if g == 1 {
             vec![vec![1.0; dims]; n]
         } else {
@@ -780,8 +784,8 @@ fn gen_est(outp: &str) {
         for (mi, m) in [Metric::Man, Metric::Ham, Metric::Euc, Metric::Mink(3)].iter().enumerate() {
             // distance weights need the distance itself as an exact rational: Manhattan and
             // Hamming only; Euclid / Minkowski are run with uniform weights
-            let weights: &[&str] = if mi < 2 { &["uniform", "distance"] } else { &["uniform"] };
-            if mi >= 2 && g % 2 != mi % 2 { continue; }
+            let weights: &[&str] = if mi < 2 && small { &["uniform", "distance"] } else { &["uniform"] };
+            if mi >= 2 && (g / 2) % 2 != mi % 2 { continue; }
             for &w in weights {
                 for b in BACKENDS {
                     for k in 0..=n + 1 {
@@ -799,15 +803,212 @@ fn gen_est(outp: &str) {
     println!("{} estimator events", out.finish());
 }
 
+// ------------------------------------------------------------------------------------------
+// gen-tree: binding of the cover-tree design model (spec/neighbour/CoverTree.tla).  Inputs are
+// the REPLAY lines of CoverTreeMC (data sequence + the model's tree).  The real CoverTree is
+// built over the same data with the Manhattan metric, its private structure is read through
+// its serde serialisation, and find / find_radius are recorded in the order returned.
+// ------------------------------------------------------------------------------------------
+fn node_json(v: &Value) -> Value {
+    let f = |x: &Value| int_exact(x.as_f64().unwrap_or(f64::NAN)).unwrap_or(-1);
+    json!({"idx": v["idx"].as_i64().unwrap_or(-1), "maxDist": f(&v["max_dist"]), "parentDist": f(&v["parent_dist"]),
+           "scale": v["_scale"].as_i64().unwrap_or(-1),
+           "children": v["children"].as_array().map(|a| a.iter().map(node_json).collect::<Vec<_>>()).unwrap_or_default()})
+}
+
+fn gen_tree(inp: &str, outp: &str) {
+    let mut out = Out::create(outp);
+    let mut run = 0i64;
+    for line in read_ndjson(inp) {
+        run += 1;
+        let di: Vec<Vec<i64>> = line["D"].as_array().unwrap().iter()
+            .map(|p| p.as_array().unwrap().iter().map(|x| x.as_i64().unwrap()).collect()).collect();
+        let data: Vec<P> = di.iter().map(|p| to_f(p, 1)).collect();
+        let n = data.len();
+        let dims = di[0].len();
+        let lo = di.iter().flatten().min().copied().unwrap_or(0).min(0) - 1;
+        let hi = line["side"].as_i64().unwrap_or(di.iter().flatten().max().copied().unwrap_or(0) + 1);
+        let mut ev = json!({"run": run, "ev": "Tree", "D": di, "u": 1, "n": n, "expect": line["tree"],
+            "ident": data.iter().all(|x| *x == data[0])});
+        let built = guard(|| CoverTree::new(data.clone(), Distances::manhattan()));
+        let tree = match built {
+            Ok(Ok(t)) => t,
+            _ => {
+                ev["build"] = json!("panic");
+                ev["qs"] = json!([]);
+                out.emit(ev);
+                continue;
+            }
+        };
+        ev["build"] = json!("ok");
+        let dump = serde_json::to_value(&tree).unwrap_or(Value::Null);
+        ev["tree"] = node_json(&dump["root"]);
+        // queries: the lattice and a margin of one around it
+        let mut qs: Vec<Vec<i64>> = vec![vec![]];
+        for _ in 0..dims {
+            qs = qs.iter().flat_map(|q| (lo..=hi).map(move |x| { let mut v = q.clone(); v.push(x); v })).collect();
+        }
+        let maxr = dims as i64 * (hi - lo);
+        let mut qv = Vec::new();
+        for qi in &qs {
+            let q = to_f(qi, 1);
+            let ent = |h: &Hit| json!({"i": h.0, "key": Metric::Man.key(1, dims, h.1), "pt": to_i(h.2, 1)});
+            let mut finds = Vec::new();
+            for k in 1..=n {
+                let r = guard(|| tree.find(&q, k).map(|v| v.iter().map(|h| ent(h)).collect::<Vec<_>>()));
+                finds.push(match r {
+                    Ok(Ok(res)) => json!({"k": k, "status": "ok", "res": res}),
+                    Ok(Err(_)) => json!({"k": k, "status": "err"}),
+                    Err(_) => json!({"k": k, "status": "panic"}),
+                });
+            }
+            let mut radii = Vec::new();
+            for r in 1..=maxr {
+                let res = guard(|| tree.find_radius(&q, r as f64).map(|v| v.iter().map(|h| ent(h)).collect::<Vec<_>>()));
+                radii.push(match res {
+                    Ok(Ok(res)) => json!({"kind": "at", "rpos": true, "rkey": r, "status": "ok", "res": res}),
+                    Ok(Err(_)) => json!({"kind": "at", "rpos": true, "rkey": r, "status": "err"}),
+                    Err(_) => json!({"kind": "at", "rpos": true, "rkey": r, "status": "panic"}),
+                });
+            }
+            qv.push(json!({"q": qi, "finds": finds, "radii": radii}));
+        }
+        ev["qs"] = json!(qv);
+        out.emit(ev);
+    }
+    println!("{} tree events", out.finish());
+}
+
+// ------------------------------------------------------------------------------------------
+// gen-linfind: binding of the design model LinearFind.tla.  Every REPLAY line is a key vector,
+// a k and the order in which the model returns the indices; the real LinearKNNSearch::find
+// is run on 1-D data realising the key vector (point i at coordinate keys[i], query at 0,
+// Manhattan metric) and its answer is logged in the order returned.
+// ------------------------------------------------------------------------------------------
+fn gen_linfind(inp: &str, outp: &str) {
+    let mut out = Out::create(outp);
+    let mut run = 0i64;
+    for line in read_ndjson(inp) {
+        run += 1;
+        let keys: Vec<i64> = line["keys"].as_array().unwrap().iter().map(|x| x.as_i64().unwrap()).collect();
+        let k = line["k"].as_u64().unwrap() as usize;
+        let data: Vec<P> = keys.iter().map(|&x| vec![x as f64]).collect();
+        let q: P = vec![0.0];
+        let r = guard(|| {
+            LinearKNNSearch::new(data.clone(), Distances::manhattan())
+                .and_then(|s| s.find(&q, k).map(|v| v.iter().map(|h| json!({"i": h.0, "key": Metric::Man.key(1, 1, h.1)})).collect::<Vec<_>>()))
+        });
+        let mut ev = json!({"run": run, "ev": "LinFind", "keys": keys, "k": k, "expect": line["order"]});
+        match r {
+            Ok(Ok(res)) => {
+                ev["status"] = json!("ok");
+                ev["res"] = json!(res);
+            }
+            Ok(Err(_)) => ev["status"] = json!("err"),
+            Err(_) => ev["status"] = json!("panic"),
+        }
+        out.emit(ev);
+    }
+    println!("{} linear-find events", out.finish());
+}
+
+// ------------------------------------------------------------------------------------------
+// rerun: re-execute the events of a replay artefact against the current build of the library
+// (lattice Sweep, Heap, KnnPredict and LinFind events carry their complete input; events on
+// continuous data and Tree events are passed through unchanged for re-validation only).
+// ------------------------------------------------------------------------------------------
+fn ivec(v: &Value) -> Vec<i64> {
+    v.as_array().map(|a| a.iter().map(|x| x.as_i64().unwrap_or(0)).collect()).unwrap_or_default()
+}
+
+fn rerun(inp: &str, outp: &str) {
+    let mut out = Out::create(outp);
+    let mut redone = 0;
+    for e in read_ndjson(inp) {
+        let evn = e["ev"].as_str().unwrap_or("");
+        if evn == "Sweep" && e["src"] == "lat" {
+            let u = e["u"].as_i64().unwrap_or(1);
+            let data: Vec<P> = e["D"].as_array().unwrap().iter().map(|p| to_f(&ivec(p), u)).collect();
+            let q = to_f(&ivec(&e["q"]), u);
+            let m = match e["metric"].as_str().unwrap_or("") {
+                "man" => Metric::Man,
+                "euc" => Metric::Euc,
+                "ham" => Metric::Ham,
+                _ => Metric::Mink(e["p"].as_u64().unwrap_or(3) as u16),
+            };
+            let ks: Vec<usize> = e["finds"].as_array().map(|a| a.iter().map(|f| f["k"].as_u64().unwrap_or(0) as usize).collect()).unwrap_or_default();
+            let ks = if ks.is_empty() { (0..=data.len() + 1).collect() } else { ks };
+            // radii: recover the request from its kind and key
+            let all: Vec<f64> = with_metric!(m, d, data.iter().map(|x| d.distance(&q, x)).collect());
+            let mut ds = all.clone();
+            ds.sort_by(|a, b| a.partial_cmp(b).unwrap());
+            ds.dedup();
+            let mut rs: Vec<RSpec> = Vec::new();
+            match e["radii"].as_array() {
+                Some(a) if !a.is_empty() => {
+                    for r in a {
+                        let rkey = r["rkey"].as_i64().unwrap_or(0);
+                        let j = ds.iter().position(|&d| m.key(u, q.len(), d) == rkey);
+                        match (r["kind"].as_str().unwrap_or(""), j) {
+                            ("at", Some(j)) => rs.push(RSpec::At(j)),
+                            ("mid", Some(j)) => rs.push(RSpec::Mid(j)),
+                            ("below", _) => rs.push(RSpec::Below),
+                            ("above", _) => rs.push(RSpec::Above),
+                            ("zero", _) => rs.push(RSpec::Zero),
+                            ("neg", _) => rs.push(RSpec::Neg),
+                            _ => {}
+                        }
+                    }
+                }
+                _ => rs = all_rspecs(data.len()),
+            }
+            let backend = e["backend"].as_str().unwrap_or("cover").to_string();
+            let c = Case { run: e["run"].as_i64().unwrap_or(0), src: "lat", metric: m, backend: &backend, u, data: &data, q: &q, ks: &ks, rs: &rs };
+            out.emit(with_metric!(m, d, sweep(d, &c)));
+            redone += 1;
+        } else if evn == "Heap" {
+            let ops: Vec<(i64, i64)> = e["ops"].as_array().unwrap().iter().map(|o| (o[0].as_i64().unwrap(), o[1].as_i64().unwrap())).collect();
+            let src = e["src"].as_str().unwrap_or("replay").to_string();
+            out.emit(heap_event(e["run"].as_i64().unwrap_or(0), &src, e["k"].as_u64().unwrap_or(1) as usize, &ops, e.get("expect")));
+            redone += 1;
+        } else if evn == "KnnPredict" {
+            let x: Vec<P> = e["X"].as_array().unwrap().iter().map(|p| to_f(&ivec(p), 2)).collect();
+            let y: Vec<f64> = ivec(&e["y"]).iter().map(|&v| v as f64).collect();
+            let m = match e["metric"].as_str().unwrap_or("") {
+                "man" => Metric::Man,
+                "euc" => Metric::Euc,
+                "ham" => Metric::Ham,
+                _ => Metric::Mink(e["p"].as_u64().unwrap_or(3) as u16),
+            };
+            let qs: Vec<P> = match e["preds"].as_array() {
+                Some(a) if !a.is_empty() => a.iter().map(|p| to_f(&ivec(&p["q"]), 2)).collect(),
+                _ => vec![x[0].clone()],
+            };
+            let (kind, backend, weight) = (e["kind"].as_str().unwrap_or("cls").to_string(),
+                e["backend"].as_str().unwrap_or("cover").to_string(), e["weight"].as_str().unwrap_or("uniform").to_string());
+            let c = EstCase { run: e["run"].as_i64().unwrap_or(0), kind: &kind, metric: m, backend: &backend, weight: &weight,
+                k: e["k"].as_u64().unwrap_or(0) as usize, x: &x, y: &y, qs: &qs };
+            out.emit(with_metric!(m, d, est_event(d, &c)));
+            redone += 1;
+        } else {
+            out.emit(e);
+        }
+    }
+    println!("{} events, {} re-executed", out.finish(), redone);
+}
+
 fn main() {
     silence_panics();
     let args: Vec<String> = std::env::args().collect();
     match arg(&args, 1) {
-        "gen-lattice" => gen_lattice(arg(&args, 2), arg(&args, 3), arg(&args, 4).parse().unwrap()),
+        "gen-lattice" => gen_lattice(arg(&args, 2), arg(&args, 3)),
         "gen-edge" => gen_edge(arg(&args, 2)),
         "gen-random" => gen_random(arg(&args, 2)),
         "gen-heap" => gen_heap(arg(&args, 2), arg(&args, 3)),
         "gen-est" => gen_est(arg(&args, 2)),
+        "gen-linfind" => gen_linfind(arg(&args, 2), arg(&args, 3)),
+        "rerun" => rerun(arg(&args, 2), arg(&args, 3)),
+        "gen-tree" => gen_tree(arg(&args, 2), arg(&args, 3)),
         other => {
             eprintln!("unknown sub-command {}", other);
             std::process::exit(2)
